@@ -35,7 +35,8 @@ func legalShapes() []tak.Move {
 					add(tak.Move{X: int8(x), Y: int8(y), Type: t})
 				}
 				dist := map[tak.MoveType]int{tak.SlideLeft: x, tak.SlideRight: n - 1 - x, tak.SlideDown: y, tak.SlideUp: n - 1 - y}
-				for t, d := range dist {
+				for _, t := range []tak.MoveType{tak.SlideLeft, tak.SlideRight, tak.SlideUp, tak.SlideDown} { // fixed order: runs are reproducible
+					d := dist[t]
 					if d == 0 {
 						continue
 					}
